@@ -16,6 +16,13 @@ def record(c, name, mode, n, days, seed_off=0, corrupt=0):
     return open(path).read().splitlines()
 
 
+def record_cases(c, cases_path, every, days):
+    path = os.path.join(vlib.WORK, "%s_cases_trace.ndjson" % c.pid.lower())
+    vlib.ohv(["record", "dayeval", "--mode", "cases", "--cases", cases_path, "--every", every, "--days", days, "--seed", c.seed],
+             stdout_path=path, timeout=7200)
+    return open(path).read().splitlines()
+
+
 def validate(c, lines, nshards, want):
     """want: 'kind' (C01) or 'comment' (C17). Returns the aggregated statistics."""
     shards = vlib.shard_lines(lines, nshards, "%s_de" % c.pid.lower())
